@@ -81,6 +81,17 @@ impl RenkoOutput {
 	requires self.wf()
 	ensures r == self.len - self.pos,
 //@end
+//@extract src/methods/renko.rs impl[Iterator for RenkoOutput]::nth pub
+//@sig pub fn nth(&mut self, n: usize) -> (r: Option<RenkoBlock>)
+	requires old(self).wf()
+	ensures final(self).wf(), final(self).len == old(self).len, final(self).brick_size == old(self).brick_size, final(self).base_line == old(self).base_line,
+		final(self).block_volume == old(self).block_volume,
+		// skipping n bricks yields brick pos + n of the SAME emission when it exists, and exhausts the iterator otherwise: never a brick beyond len
+		old(self).pos + n >= old(self).len ==> r is None && final(self).pos == old(self).len,
+		old(self).pos + n < old(self).len ==> r is Some && final(self).pos == old(self).pos + n + 1
+			&& (r->Some_0.open@, r->Some_0.close@) == old(self).brick(old(self).pos + n)
+			&& r->Some_0.volume == old(self).block_volume,
+//@end
 	// RenkoOutput::last takes `mut self`, which Verus does not support: not under contract
 }
 // consecutive bricks are contiguous: brick k closes where brick k+1 opens
